@@ -365,14 +365,46 @@ func (t *transpiler) evaluateFor(forStatement parser.For) error {
 	return conv.ForEnd()
 }
 
-func (t *transpiler) evaluateVarDefinition(definition parser.VariableDefinition) error {
-	for i, variable := range definition.Variables() {
-		result, err := t.evaluateExpression(definition.Values()[i], true)
+// evaluateAssignedValues evaluates the values of a definition or assignment in source order. All of them
+// are read before the first variable is written (a, b = b, a), so a value that is assigned next to others
+// is kept in a temporary until every value has been evaluated.
+func (t *transpiler) evaluateAssignedValues(expressions []parser.Expression) ([]string, error) {
+	values := make([]string, len(expressions))
+
+	for i, expression := range expressions {
+		result, err := t.evaluateExpression(expression, true)
 
 		if err != nil {
-			return err
+			return nil, err
 		}
-		err = t.converter.VarDefinition(variable.Name(), result.firstValue(), variable.Global())
+		values[i] = result.firstValue()
+
+		if len(expressions) > 1 {
+			temporary := fmt.Sprintf("_mv%d", i)
+			err = t.converter.VarDefinition(temporary, values[i], false)
+
+			if err != nil {
+				return nil, err
+			}
+			values[i], err = t.converter.VarEvaluation(temporary, true, false)
+
+			if err != nil {
+				return nil, err
+			}
+		}
+	}
+	return values, nil
+}
+
+func (t *transpiler) evaluateVarDefinition(definition parser.VariableDefinition) error {
+	values, err := t.evaluateAssignedValues(definition.Values())
+
+	if err != nil {
+		return err
+	}
+
+	for i, variable := range definition.Variables() {
+		err = t.converter.VarDefinition(variable.Name(), values[i], variable.Global())
 
 		if err != nil {
 			return err
@@ -407,13 +439,14 @@ func (t *transpiler) evaluateVarDefinitionCallAssignment(definition parser.Varia
 }
 
 func (t *transpiler) evaluateVarAssignment(assignment parser.VariableAssignment) error {
-	for i, variable := range assignment.Variables() {
-		result, err := t.evaluateExpression(assignment.Values()[i], true)
+	values, err := t.evaluateAssignedValues(assignment.Values())
 
-		if err != nil {
-			return err
-		}
-		err = t.converter.VarDefinition(variable.Name(), result.firstValue(), variable.Global())
+	if err != nil {
+		return err
+	}
+
+	for i, variable := range assignment.Variables() {
+		err = t.converter.VarDefinition(variable.Name(), values[i], variable.Global())
 
 		if err != nil {
 			return err
